@@ -259,6 +259,7 @@ package saml2
 //@ ghost field types.LogoutResponse.$src *etree.Element
 //@ ghost field LogoutRequest.$src *etree.Element
 //@ ghost field types.EncryptedAssertion.$src *etree.Element
+//@ ghost field types.UnverifiedBaseResponse.$src *etree.Element
 
 //@ func (sp *SAMLServiceProvider) validationContext() (ctx *dsig.ValidationContext)
 //@   requires sp != nil
@@ -407,6 +408,7 @@ package saml2
 
 //@ func (sp *SAMLServiceProvider) ValidateEncodedResponse(encodedResponse string) (res *types.Response, err error)
 //@   requires InboundOK(sp)
+//@   ensures [C17] config: *sp == old(*sp)
 //@   safety [C09]
 //@   fresh [C17] res when err == nil
 //@   ensures [C09] xor: (res != nil) != (err != nil)
@@ -433,6 +435,7 @@ package saml2
 
 //@ func (sp *SAMLServiceProvider) ValidateEncodedLogoutResponsePOST(encodedResponse string) (res *types.LogoutResponse, err error)
 //@   requires InboundOK(sp)
+//@   ensures [C17] config: *sp == old(*sp)
 //@   safety [C09]
 //@   fresh [C17] res when err == nil
 //@   ensures [C09] xor: (res != nil) != (err != nil)
@@ -444,6 +447,7 @@ package saml2
 
 //@ func (sp *SAMLServiceProvider) ValidateEncodedLogoutRequestPOST(encodedRequest string) (res *LogoutRequest, err error)
 //@   requires InboundOK(sp)
+//@   ensures [C17] config: *sp == old(*sp)
 //@   safety [C09]
 //@   fresh [C17] res when err == nil
 //@   ensures [C09] xor: (res != nil) != (err != nil)
@@ -453,16 +457,37 @@ package saml2
 //@   ensures [C02, C04, C10] flag.good: err == nil && res.SignatureValidated ==> sigState(validatedFrom(res.$src), sp.IDPCertificateStore, sp.Clock) == 1
 //@   ensures [C02, C04, C10] flag.missing: err == nil && !sp.SkipSignatureValidation && !res.SignatureValidated ==> sigState(res.$src, sp.IDPCertificateStore, sp.Clock) == 0
 
+// The unverified decoders (C20, C12): no key or configuration input; raw first, then the inflation limited to
+// the fixed 5 MiB; what is decoded is exactly the raw bytes or that inflation.
+//@ pure func UnverifiedInflation(raw []byte) []byte {
+//@   return readAllOf(Inflated(raw, 5242880))
+//@ }
+//@ pure func InflationUsable(raw []byte) bool {
+//@   return !readAllErr(Inflated(raw, 5242880)) && len(UnverifiedInflation(raw)) <= 5242880
+//@ }
 //@ func DecodeUnverifiedBaseResponse(encodedResponse string) (res *types.UnverifiedBaseResponse, err error)
 //@   safety [C09]
 //@   ensures [C09] xor: (res != nil) != (err != nil)
+//@   ensures [C20] b64: err == nil ==> b64ok(encodedResponse)
+//@   ensures [C20] rawfirst: b64ok(encodedResponse) && decodesAs(b64dec(encodedResponse), 1) ==> err == nil && res.$src == serOf(b64dec(encodedResponse))
+//@   ensures [C20, C12] inflated: b64ok(encodedResponse) && !decodesAs(b64dec(encodedResponse), 1) && InflationUsable(b64dec(encodedResponse))
+//@        && decodesAs(UnverifiedInflation(b64dec(encodedResponse)), 1) ==> err == nil && res.$src == serOf(UnverifiedInflation(b64dec(encodedResponse)))
+//@   ensures [C20, C12] overlimit: b64ok(encodedResponse) && !decodesAs(b64dec(encodedResponse), 1) && !InflationUsable(b64dec(encodedResponse)) ==> err != nil
+//@   ensures [C20] source: err == nil ==> res.$src == serOf(b64dec(encodedResponse)) || res.$src == serOf(UnverifiedInflation(b64dec(encodedResponse)))
 
 //@ func DecodeUnverifiedLogoutResponse(encodedResponse string) (res *types.LogoutResponse, err error)
 //@   safety [C09]
 //@   ensures [C09] xor: (res != nil) != (err != nil)
+//@   ensures [C20] b64: err == nil ==> b64ok(encodedResponse)
+//@   ensures [C20] rawfirst: b64ok(encodedResponse) && decodesAs(b64dec(encodedResponse), 2) ==> err == nil && res.$src == serOf(b64dec(encodedResponse))
+//@   ensures [C20, C12] inflated: b64ok(encodedResponse) && !decodesAs(b64dec(encodedResponse), 2) && InflationUsable(b64dec(encodedResponse))
+//@        && decodesAs(UnverifiedInflation(b64dec(encodedResponse)), 2) ==> err == nil && res.$src == serOf(UnverifiedInflation(b64dec(encodedResponse)))
+//@   ensures [C20, C12] overlimit: b64ok(encodedResponse) && !decodesAs(b64dec(encodedResponse), 2) && !InflationUsable(b64dec(encodedResponse)) ==> err != nil
+//@   ensures [C20] source: err == nil ==> res.$src == serOf(b64dec(encodedResponse)) || res.$src == serOf(UnverifiedInflation(b64dec(encodedResponse)))
 
 //@ func (sp *SAMLServiceProvider) RetrieveAssertionInfo(encodedResponse string) (info *AssertionInfo, err error)
 //@   requires InboundOK(sp)
+//@   ensures [C17] config: *sp == old(*sp)
 //@   safety [C09]
 //@   ensures [C09] xor: (info != nil) != (err != nil)
 //@   ensures [C04] skip: err == nil && sp.SkipSignatureValidation ==> !info.ResponseSignatureValidated
